@@ -142,28 +142,45 @@ Proof. unfold all_lt. cbn [forallb]. intros A. apply andb_true_iff in A. destruc
 Lemma wrapu64_small x : 0 <= x < 18446744073709551616 -> wrapu 64 x = x.
 Proof. intros H. unfold wrapu. change (2 ^ 64) with 18446744073709551616. apply Z.mod_small. exact H. Qed.
 
+Lemma nth_local_b64_nonneg i : 0 <= nth i local_b64 0.
+Proof.
+  assert (H : Forall (fun w => 0 <= w) local_b64) by (unfold local_b64; repeat (constructor; [lia|]); constructor).
+  destruct (Nat.lt_ge_cases i (length local_b64)) as [Hi|Hi]; [|rewrite nth_overflow by exact Hi; lia].
+  rewrite Forall_forall in H. apply H. apply nth_In. exact Hi.
+Qed.
+Lemma q0_nonneg v : 0 <= q0 v. Proof. apply nth_local_b64_nonneg. Qed.
+Lemma q1_nonneg v w : 0 <= q1 v w. Proof. apply nth_local_b64_nonneg. Qed.
+Lemma q2_nonneg v w : 0 <= q2 v w. Proof. apply nth_local_b64_nonneg. Qed.
+Lemma q3_nonneg v : 0 <= q3 v. Proof. apply nth_local_b64_nonneg. Qed.
+Lemma q1t_nonneg v : 0 <= q1t v. Proof. apply nth_local_b64_nonneg. Qed.
+Lemma q2t_nonneg v : 0 <= q2t v. Proof. apply nth_local_b64_nonneg. Qed.
+#[local] Hint Resolve q0_nonneg q1_nonneg q2_nonneg q3_nonneg q1t_nonneg q2t_nonneg : b64nn.
+
 Theorem b64_loop_matches : forall mf l out i p a fs, all_lt 256 l = true ->
   (forall k, (k < length l)%nat -> p (i + Z.of_nat k) = schar (nth k l 0%N)) ->
   (length l < fs)%nat -> (length l < mf)%nat -> Z.of_nat (length l) < 18446744073709551616 ->
-  exists ws, src_b64_encode_loop1 fs p a (Z.of_nat (length l)) i out = Some (out ++ ws) /\ b64_encode_raw mf l = Ok (map Z.to_N ws).
+  exists ws, src_b64_encode_loop1 fs p a (Z.of_nat (length l)) i out = Some (out ++ ws) /\ b64_encode_raw mf l = Ok (map Z.to_N ws) /\
+             Forall (fun w => 0 <= w) ws.
 Proof.
   induction mf as [|mf IH]; intros l out i p a fs A R Hfs Hmf Hb; [lia|].
   destruct fs as [|fs]; [lia|]. rewrite b64_loop_S. rewrite (wrapu64_small 2), (wrapu64_small 3) by lia.
   destruct l as [|s0 [|s1 [|s2 t]]].
-  - exists []. split; [cbn; rewrite app_nil_r; reflexivity|reflexivity].
+  - exists []. split; [cbn; rewrite app_nil_r; reflexivity|split; [reflexivity|constructor]].
   - destruct (all_lt_cons _ _ A) as [H0 _]. destruct (b64_one s0 H0) as (E0 & _ & E1 & _).
     pose proof (R 0%nat ltac:(cbn; lia)) as R0. cbn [nth Z.of_nat] in R0.
     exists [q0 (schar s0); q1t (schar s0); 61; 61]. split.
     + cbn [length Z.of_nat Pos.of_succ_nat Z.gtb Z.compare Pos.compare Pos.compare_cont b2z z2b Z.eqb Pos.eqb negb].
       rewrite R0. rewrite <- !app_assoc. reflexivity.
-    + cbn [b64_encode_raw]. rewrite E0, E1. reflexivity.
+    + split; [cbn [b64_encode_raw]; rewrite E0, E1; reflexivity|].
+      repeat (constructor; [first [solve [auto with b64nn]|lia]|]). constructor.
   - destruct (all_lt_cons _ _ A) as [H0 A1]. destruct (all_lt_cons _ _ A1) as [H1 _].
     destruct (b64_one s0 H0) as (E0 & _ & _ & _). destruct (b64_one s1 H1) as (_ & _ & _ & E2). destruct (b64_two s0 s1 H0 H1) as [E1 _].
     pose proof (R 0%nat ltac:(cbn; lia)) as R0. pose proof (R 1%nat ltac:(cbn; lia)) as R1. cbn [nth Z.of_nat Pos.of_succ_nat] in R0, R1.
     exists [q0 (schar s0); q1 (schar s0) (schar s1); q2t (schar s1); 61]. split.
     + cbn [length Z.of_nat Pos.of_succ_nat Pos.succ Z.gtb Z.compare Pos.compare Pos.compare_cont b2z z2b Z.eqb Pos.eqb negb].
       rewrite R0, R1. rewrite <- !app_assoc. reflexivity.
-    + cbn [b64_encode_raw]. rewrite E0, E1, E2. reflexivity.
+    + split; [cbn [b64_encode_raw]; rewrite E0, E1, E2; reflexivity|].
+      repeat (constructor; [first [solve [auto with b64nn]|lia]|]). constructor.
   - destruct (all_lt_cons _ _ A) as [H0 A1]. destruct (all_lt_cons _ _ A1) as [H1 A2]. destruct (all_lt_cons _ _ A2) as [H2 At].
     destruct (b64_one s0 H0) as (E0 & _ & _ & _). destruct (b64_one s2 H2) as (_ & E3 & _ & _).
     destruct (b64_two s0 s1 H0 H1) as [E1 _]. destruct (b64_two s1 s2 H1 H2) as [_ E2].
@@ -178,24 +195,36 @@ Proof.
     replace (Z.of_nat (length t) + 3 - 3) with (Z.of_nat (length t)) by lia.
     rewrite !(wrapu64_small (Z.of_nat (length t))) by lia.
     destruct (IH t ((((out ++ [q0 (schar s0)]) ++ [q1 (schar s0) (schar s1)]) ++ [q2 (schar s1) (schar s2)]) ++ [q3 (schar s2)])
-                 (i + 3) p a fs At) as (ws & Es & Em).
+                 (i + 3) p a fs At) as (ws & Es & Em & Hnn).
     + intros k Hk. specialize (R (S (S (S k))) ltac:(cbn; lia)). replace (i + 3 + Z.of_nat k) with (i + Z.of_nat (S (S (S k)))) by lia. exact R.
     + lia.
     + lia.
     + lia.
     + exists (q0 (schar s0) :: q1 (schar s0) (schar s1) :: q2 (schar s1) (schar s2) :: q3 (schar s2) :: ws). split.
       * rewrite Es. rewrite <- !app_assoc. reflexivity.
-      * cbn [b64_encode_raw]. rewrite E0, E1, E2, E3, Em. reflexivity.
+      * split; [cbn [b64_encode_raw]; rewrite E0, E1, E2, E3, Em; reflexivity|].
+        repeat (constructor; [solve [auto with b64nn]|]). exact Hnn.
 Qed.
 
 Theorem b64_encode_matches_source l fuel : all_lt 256 l = true -> (length l < fuel)%nat ->
   Z.of_nat (length l) < 18446744073709551616 ->
-  exists ws, src_b64_encode fuel (arrb l) (Z.of_nat (length l)) = Some ws /\ b64_encode_raw (S (length l)) l = Ok (map Z.to_N ws).
+  exists ws, src_b64_encode fuel (arrb l) (Z.of_nat (length l)) = Some ws /\ b64_encode_raw (S (length l)) l = Ok (map Z.to_N ws) /\
+             Forall (fun w => 0 <= w) ws.
 Proof.
   intros A Hf Hb. unfold src_b64_encode. cbv zeta.
-  destruct (b64_loop_matches (S (length l)) l [] 0 (arrb l) 0 fuel A) as (ws & Es & Em); [|exact Hf|lia|exact Hb|].
+  destruct (b64_loop_matches (S (length l)) l [] 0 (arrb l) 0 fuel A) as (ws & Es & Em & Hnn); [|exact Hf|lia|exact Hb|].
   - intros k _. unfold arrb. rewrite Z.add_0_l, Nat2Z.id. reflexivity.
-  - exists ws. split; [exact Es|exact Em].
+  - exists ws. split; [exact Es|split; [exact Em|exact Hnn]].
+Qed.
+
+(* the ST_ASSERT of the switch's default group is unreachable: what the translated function stores never contains the
+   abort mark *)
+Corollary b64_encode_never_aborts l fuel ws : all_lt 256 l = true -> (length l < fuel)%nat ->
+  Z.of_nat (length l) < 18446744073709551616 ->
+  src_b64_encode fuel (arrb l) (Z.of_nat (length l)) = Some ws -> ~ In ext_abort_unit ws.
+Proof.
+  intros A Hf Hb E Hin. destruct (b64_encode_matches_source l fuel A Hf Hb) as (ws' & E' & _ & Hnn).
+  rewrite E in E'. inversion E'; subst ws'. rewrite Forall_forall in Hnn. specialize (Hnn _ Hin). unfold ext_abort_unit in Hnn. lia.
 Qed.
 
 Example b64_encode_example :
